@@ -1248,6 +1248,14 @@ class FuncContent:
         return SKIP_TO_NEXT_LINE
 
     def __is_jmc_function(self, key_pos: int, token: Token) -> bool:
+        if len(self.command) <= key_pos + 1 and (
+            token.string in LOAD_ONCE_COMMANDS
+            or token.string in EXECUTE_EXCLUDED_COMMANDS
+            or token.string in JMC_COMMANDS
+        ):
+            raise JMCSyntaxException(
+                f"Expected ( after {token.string}", token, self.tokenizer, col_length=True
+            )
         load_once_command = self.get_function(token, LOAD_ONCE_COMMANDS)
         if load_once_command is not None:
             if self.is_execute:
